@@ -8,3 +8,16 @@ claim("C15", "exploration",
       "Trusts the reference calendar (own days-from-civil arithmetic) and the UTC offsets reported by the Go tz database; instants 1999-2041.",
       "differential testing against an independent calendar model + trace checker on notifications (runtime oracle)",
       "DESIGN.md section 3 C15")
+_SYS_NOTE = "Trusts the harness's own record of what it submitted and when (virtual time of a testing/synctest bubble), the reference models (routing, alert merge, silences observed through the API, inhibition rule, calendar) and the recording notifier at the Notifier boundary; ties at identical instants are admitted either way; bounds include a documented slack (pipeline timeout, scripted receiver latency). Small domains: <=8 label sets, trees of depth<=3."
+claim("C01", "exploration",
+      "Trace monitor over system executions: the unmodified app wiring runs in virtual time under generated configs, alert timelines, silences/inhibition/time intervals, receiver fault scripts, reloads and restarts; an offline obligations checker decides, from ground truth the harness itself submitted, that every eligible firing alert is listed by the latest notification of its group to every routed integration except for stretches within the batching bound, and that failed flushes are retried.",
+      _SYS_NOTE, "runtime monitoring: offline obligation checker over recorded notification traces (virtual-time executions of the real app)", "DESIGN.md section 3 C01")
+claim("C04", "exploration",
+      "Trace monitor: per (group key, receiver integration) every recorded successful notification is checked against the permission clauses of the statement relative to its predecessor, unchanged groups are checked for a timely repeat, resolved-only notifications for a firing predecessor; long virtual time crosses notification-log GC, snapshots, reloads and restarts.",
+      _SYS_NOTE, "runtime monitoring: offline dedup/repeat checker over recorded notification traces", "DESIGN.md section 3 C04")
+claim("C05", "exploration",
+      "Trace monitor: every recorded attempt is checked for truthful resolved/firing status against submitted end times; owed resolutions must arrive by the next flush; targeted scenarios re-fire an alert while its resolved notification is held by a slow or failing receiver and require it to stay in its group and be reported firing again.",
+      _SYS_NOTE, "runtime monitoring: offline checkers over recorded notification traces + API probes", "DESIGN.md section 3 C05")
+claim("C06", "exploration",
+      "Trace monitor: every recorded attempt must carry one route and one group_by assignment shared by all its alerts, the expected group key, and the complete set of firing unsuppressed members; group keys must not alternate between aggregation groups; GET /alerts/groups and GET /alerts at probe instants must equal the reference partition.",
+      _SYS_NOTE, "runtime monitoring: offline grouping checker over recorded notification traces + API probes; race detector pass", "DESIGN.md section 3 C06")
